@@ -133,6 +133,8 @@ const TEXT_PROBES = [
   { id: "empty-union", text: "type X = { type?: Array<never | never> };", values: [{}, { type: [] }, { type: [1] }] },
   { id: "template-text-needing-escapes", text: "type X = `C:\\\\dir${string}` | `tick\\`${number}` | `dollar\\${x${string}`;", values: ["C:\\dirx", "tick`1", "dollar${xq", "other"] },
   { id: "one-part-template-with-quotes", text: 'type X = { k: `say "hi"\\\\n` };', values: [{ k: 'say "hi"\\n' }, { k: "x" }] },
+  { id: "exclude-from-any", text: "type A = { a: 1 };\ntype B = { b: 2 };\ntype X = { v: Exclude<any, A | B> };", values: [{ v: "s" }, {}, { v: { a: 1 } }] },
+  { id: "carriage-return-in-template-text", text: "type X = { k: `a\\r${string}` };", values: [{ k: "a\rzz" }, { k: "a\nzz" }] },
   { id: "function-typed-member", text: "type X = { name: string; cb: () => void };", values: [{ name: "n", cb: () => 1 }, { name: "n", cb: 1 }] },
   { id: "quoted-keys-and-index-signatures", text: 'type X = { "a-b": 1; "with space"?: string; [k: string]: string | number };', values: [{ "a-b": 1 }, { "a-b": 1, z: "s" }, { "a-b": 2 }] },
   { id: "bigint-and-tuple-rest", text: "type R = [string, ...R[]];\ntype X = { b: bigint; r: R };", values: [{ b: 1n, r: ["a", ["b"]] }, { b: 1, r: ["a"] }] },
